@@ -17,6 +17,8 @@ Definition x_print_sockaddr (t : target) : bytes :=
 Definition x_print_target := print_target x_print_sockaddr.
 Definition x_parse_target := parse_target parse_v4_sockaddr.
 Definition x_write_connect := write_connect x_print_sockaddr.
+Definition x_write_connect_udp := write_connect_udp x_print_sockaddr.
+Definition x_connect_reply (udp : bool) (cs : list bytes) := run_chunked (connect_reply udp HFUEL) ([], cs).
 Definition x_read_connect (cs : list bytes) := run_chunked (read_connect parse_v4_sockaddr HFUEL) ([], cs).
 
 Definition x_sfr_all (cs : list bytes) := sfr_all (S (S (length (concat cs)))) [] cs.
